@@ -104,13 +104,50 @@ def run(tier, seed, opens):
                     ok += 1
             except (WalletError, TransactionError, ValueError):
                 ok += 1
+            # sweep: every confirmed non-dust UTXO of the wallet goes to the target(s); conservation, no foreign change, nothing left out or twice
+            for targets in (1, 2):
+                cases += 1
+                try:
+                    w5 = Wallet.create('c07w%d_%d' % (wn, targets), network='bitcoinlib_test', db_uri=db, witness_type=wt,
+                                       scheme='single' if (wn + targets) % 2 else 'bip32')
+                    k5 = w5.get_key()
+                    vals = [rng.choice([600, 1000, 5000, 100000, 2500000]) for _ in range(rng.choice([1, 2, 4]))]
+                    u5 = {}
+                    for j, v in enumerate(vals):
+                        txid = '%064x' % rng.getrandbits(256)
+                        w5.utxo_add(k5.address, v, txid, j, confirmations=rng.choice([1, 6]))
+                        u5[(txid, j)] = v
+                    d5 = [HDKey(network='bitcoinlib_test', witness_type=wt).address() for _ in range(targets)]
+                    to = d5[0] if targets == 1 else [(d5[0], 1000), (d5[1], 0)]
+                    t5 = w5.sweep(to, fee=rng.choice([None, 2000]))
+                    ops5 = [(i.prev_txid.hex(), i.output_n_int) for i in t5.inputs]
+                    spendable5 = {op: v for op, v in u5.items() if v > 1000}
+                    pr = []
+                    if len(set(ops5)) != len(ops5) or any(op not in u5 for op in ops5):
+                        pr.append('inputs are not distinct wallet UTXOs')
+                    if set(ops5) != set(spendable5):
+                        pr.append('swept %d of %d non-dust UTXOs' % (len(set(ops5) & set(spendable5)), len(spendable5)))
+                    tin5 = sum(u5.get(op, 0) for op in set(ops5))
+                    tout5 = sum(o.value for o in t5.outputs)
+                    if tin5 != tout5 + t5.fee or t5.fee < 0 or any(o.value < 0 for o in t5.outputs):
+                        pr.append('inputs %d != outputs %d + fee %d' % (tin5, tout5, t5.fee))
+                    if any(o.address not in d5 for o in t5.outputs):
+                        pr.append('output to an address that is not a sweep target')
+                    if pr:
+                        fail('sweep', {'wallet': wt, 'scheme': w5.scheme, 'utxo_values': vals, 'targets': targets}, '; '.join(pr), 'all non-dust UTXOs to the targets, balanced')
+                    else:
+                        ok += 1
+                except (WalletError, TransactionError, ValueError):
+                    ok += 1
+                except Exception as e:
+                    fail('sweep', {'wallet': wt, 'targets': targets}, 'raised %s: %s' % (type(e).__name__, str(e)[:150]), 'transaction or WalletError')
             own = set(w.addresslist())
             dests = [HDKey(network='bitcoinlib_test', witness_type=wt).address() for _ in range(3)]
             for _ in range(n_req):
                 nrec = rng.choice([1, 1, 2, 3])
                 recips = [(dests[j], rng.choice([546, 1000, 30000, 99000, 100000, 2600000, rng.randrange(600, 3 * 10 ** 6)])) for j in range(nrec)]
-                fee = rng.choice([None, None, 500, 1000, 20000, 0])
-                nchange = rng.choice([1, 1, 2, 3])
+                fee = rng.choice([None, None, 500, 1000, 20000, 0, 'low', 'normal', 'high'])
+                nchange = rng.choice([1, 1, 2, 3, 0])
                 explicit = rng.random() < 0.2
                 kwargs = dict(fee=fee, number_of_change_outputs=nchange)
                 max_utxos = rng.choice([None, None, 1, 2, 3])
@@ -165,11 +202,11 @@ def run(tier, seed, opens):
                         problems.append('unconfirmed UTXO selected')
                 if not explicit and need + (t.fee or 0) > spendable:
                     problems.append('transaction created although funds are insufficient')
-                if not explicit and fee is not None and need + fee > spendable:
+                if not explicit and isinstance(fee, int) and need + fee > spendable:
                     problems.append('transaction created although the wallet cannot cover the outputs plus the requested fee %d' % fee)
-                if fee is not None and t.fee is not None and t.fee < fee:
+                if isinstance(fee, int) and t.fee is not None and t.fee < fee:
                     problems.append('pays fee %d, less than the explicitly requested %d' % (t.fee, fee))
-                if fee is None and t.fee_per_kb and not (w.network.fee_min <= t.fee_per_kb <= w.network.fee_max):
+                if not isinstance(fee, int) and t.fee_per_kb and not (w.network.fee_min <= t.fee_per_kb <= w.network.fee_max):
                     problems.append('fee rate %d outside [%d, %d]' % (t.fee_per_kb, w.network.fee_min, w.network.fee_max))
                 if problems:
                     fail('transaction_create', inp, '; '.join(problems), 'a balanced transaction paying exactly the recipients', pid)
